@@ -13,6 +13,9 @@
 #ifndef P_K
 #define P_K 0
 #endif
+#ifndef P_LATE
+#define P_LATE 0 // 1: the activity gets its model action only after the wait is armed ; 2: it never gets one
+#endif
 #ifndef P_SYMTIME
 #define P_SYMTIME 0
 #endif
@@ -67,8 +70,12 @@ extern "C" void harness_timedwait()
     acts[i]->idx = i;
     intrusive_ptr_add_ref(acts[i]); // the s4u activity owns its implementation
     acts[i]->set_state(activity::State::RUNNING);
-    acts[i]->model_action_    = fake_action(i);
-    fake_action_state[i]      = static_cast<int>(resource::Action::State::STARTED);
+#if P_LATE
+    acts[i]->model_action_ = nullptr; // not started yet when the wait is armed (unmatched communication, activity held back by a dependency)
+#else
+    acts[i]->model_action_ = fake_action(i);
+#endif
+    fake_action_state[i]   = static_cast<int>(resource::Action::State::STARTED);
     list.push_back(acts[i]);
   }
   reset_answers();
@@ -92,6 +99,11 @@ extern "C" void harness_timedwait()
   ASSUME(st >= 0 && st <= 5);
   fake_action_state[0] = st;
   bool completed       = st == static_cast<int>(resource::Action::State::FINISHED) || st == static_cast<int>(resource::Action::State::FAILED);
+#if P_LATE == 1
+  acts[0]->model_action_ = fake_action(0); // the activity started after the wait was armed
+#elif P_LATE == 2
+  completed = false; // it never started: nothing can have completed
+#endif
   timer_task();
   CHECK(iss->simcall_.timeout_cb_ == nullptr, "a fired timer is forgotten");
   if (completed) {
